@@ -19,6 +19,7 @@ import json
 import random
 import resource
 import signal
+import sys
 import textwrap
 from types import SimpleNamespace
 
@@ -176,6 +177,7 @@ class Driver:
 
     name = "ByteVec"
     cls = ByteVec
+    deadline_factor = 1.0  # share of STEP_TIMEOUT_S granted per step (broken variants get less)
 
     def __init__(self, nv: int, rnd: random.Random):
         self.rnd = rnd
@@ -382,7 +384,7 @@ def variant_classes() -> dict:
 
 
 def driver_for(cls, label: str):
-    return type(f"Driver_{cls.__name__}", (Driver,), {"cls": cls, "name": label})
+    return type(f"Driver_{cls.__name__}", (Driver,), {"cls": cls, "name": label, "deadline_factor": 0.2})
 
 
 # ---------------------------------------------------------------------------------------------
@@ -567,7 +569,7 @@ def replay(hist, driver_cls, vals: Valuations, seed: int, compare_from: int = 0,
     for i, st in enumerate(hist):
         c = st["c"]
         try:
-            with deadline():
+            with deadline(driver_cls.deadline_factor):
                 drv.apply(c)
         except MachineryError:
             raise
@@ -588,7 +590,7 @@ def replay(hist, driver_cls, vals: Valuations, seed: int, compare_from: int = 0,
             continue
         out.steps_compared += 1
         try:
-            with deadline():
+            with deadline(driver_cls.deadline_factor):
                 for v in range(nv):
                     cmp_.check_vec(v + 1, drv.mem(v), exp[v], full=(v == c["v"] - 1))
         except Mismatch as m:
@@ -614,7 +616,7 @@ def replay(hist, driver_cls, vals: Valuations, seed: int, compare_from: int = 0,
         out.predicted = False
         if not out.exc or out.reader == "read":
             try:
-                with deadline():
+                with deadline(driver_cls.deadline_factor):
                     # the history may have stopped early at the first disagreement: finish it
                     for st in hist[(out.step + 1) if not out.ok else len(hist) :]:
                         drv.apply(st["c"])
@@ -663,6 +665,10 @@ def _init(seed, limit_mem=False):
     _G["vals"] = Valuations(seed)
     _G["n"] = 0
     if limit_mem:
+        # pool worker: vectors that contain each other recurse without end in unwrap()/get_byte(); with the
+        # limit of 20000 frames that harness.zeval asks for, that overflows the C stack (the worker dies)
+        # before python notices; the terms evaluated here are only a few levels deep
+        sys.setrecursionlimit(2500)
         try:
             resource.setrlimit(resource.RLIMIT_AS, (WORKER_MEM_BYTES, WORKER_MEM_BYTES))
         except (ValueError, OSError):
@@ -716,13 +722,42 @@ def run_batch(hists: list, drivers: list[str], seed: int, last_only: bool = Fals
         for j in jobs:
             out += _work(j)
         return out
+    return _run_jobs(jobs, seed, procs)
+
+
+def _run_jobs(jobs: list, seed: int, procs: int) -> list:
+    """Fork pool that survives the death of a worker (OOM killer, a crash inside z3): the jobs that were
+    lost are run again, finally one history per pool; a history that kills its worker twice is a failure
+    of the machinery (reported with the history), never a silent hang."""
     import multiprocessing as mp
+    from concurrent.futures import ProcessPoolExecutor, as_completed
+    from concurrent.futures.process import BrokenProcessPool
 
     ctx = mp.get_context("fork")
-    with ctx.Pool(procs, initializer=_init, initargs=(seed, True)) as pool:
-        out = []
-        for r in pool.imap_unordered(_work, jobs):
-            out += r
+    out = []
+    pending = list(jobs)
+    for attempt in range(3):
+        if not pending:
+            break
+        if attempt == 2:  # isolate: one history per job
+            pending = [(d, [it], sd, lo, pr) for (d, items, sd, lo, pr) in pending for it in items]
+        failed = []
+        with ProcessPoolExecutor(max_workers=max(1, min(procs, len(pending))), mp_context=ctx,
+                                 initializer=_init, initargs=(seed, True)) as ex:
+            futs = {ex.submit(_work, j): j for j in pending}
+            try:
+                for f in as_completed(futs):
+                    try:
+                        out += f.result()
+                    except BrokenProcessPool:
+                        failed.append(futs[f])
+            except BrokenProcessPool:  # pragma: no cover
+                pass
+            failed += [j for f, j in futs.items() if not f.done() and j not in failed]
+        if failed and attempt == 2:
+            bad = failed[0][1][0][1]
+            raise MachineryError(f"a replay worker died {len(failed)} time(s) even in isolation, e.g. on {describe(bad)}")
+        pending = failed
     out.sort(key=lambda t: (t[0], t[1]))
     return out
 
